@@ -132,17 +132,18 @@ pub fn deep_count() -> u64 {
 }
 /// Very large single documents (counts past 2^20): one in the quick tier, all in the thorough one.
 pub static HUGE_ON: std::sync::atomic::AtomicBool = std::sync::atomic::AtomicBool::new(false);
-pub const HUGE_KINDS: [&str; 4] = ["aliases", "anchors", "documents", "keys"];
+pub const HUGE_KINDS: [&str; 5] = ["aliases", "anchors", "documents", "keys", "nodes-across-documents"];
 pub fn huge_count() -> u64 {
     if HUGE_ON.load(std::sync::atomic::Ordering::Relaxed) {
         (HUGE_KINDS.len() * 2) as u64
     } else {
-        1
+        2
     }
 }
 fn huge_case(k: u64) -> Case {
-    let kind = HUGE_KINDS[(k / 2 % HUGE_KINDS.len() as u64) as usize];
-    let client = if k % 2 == 0 { Client::LoadMulti } else { Client::LoadSingle };
+    let quick = !HUGE_ON.load(std::sync::atomic::Ordering::Relaxed);
+    let kind = if quick { ["aliases", "nodes-across-documents"][(k % 2) as usize] } else { HUGE_KINDS[(k / 2 % HUGE_KINDS.len() as u64) as usize] };
+    let client = if quick || k % 2 == 0 { Client::LoadMulti } else { Client::LoadSingle };
     let n = (1usize << 20) + 1000;
     let mut text = String::with_capacity(n * 8);
     match kind {
@@ -161,6 +162,17 @@ fn huge_case(k: u64) -> Case {
         "documents" => {
             for _ in 0..n / 4 {
                 text.push_str("--- a\n");
+            }
+        }
+        "nodes-across-documents" => {
+            // each document stays below 2^20 nodes, the stream passes 2^21: whatever is counted
+            // per document by one driver and per stream by another
+            for _ in 0..3 {
+                text.push_str("--- [");
+                for _ in 0..750_000 {
+                    text.push_str("a,");
+                }
+                text.push_str("z]\n");
             }
         }
         _ => {
@@ -307,7 +319,8 @@ pub fn exhaustive_plan(ctx: &Ctx, thorough: bool) -> (u64, String) {
 
 fn draw_env(r: &mut SplitMix64) -> InputKind {
     match r.below(6) {
-        0 | 1 => InputKind::Str,
+        0 => InputKind::Str,
+        1 => InputKind::MeteredStr,
         2 | 3 => InputKind::Buffered,
         4 => InputKind::Ring(8, Policy::PerCall),
         _ => InputKind::Ring(Gen::draw_capacity(r), *r.pick(&[Policy::PushBack, Policy::Leave])),
